@@ -363,7 +363,13 @@ func body(c *Config, o *obs) {
 				return 0, errInjected
 			}
 			n := min(want, avail)
-			if c.Chunk && n > 1 && vrt.Choose(2, 1, "shortread") == 1 {
+			if c.Gunzip && c.ErrSrc == i && i < len(c.Gz) && c.Gz[i] && k == 0 {
+				// the failing gzip input: its first read delivers exactly the 10-byte
+				// gzip header (a legitimate short read), so the input is recognised as
+				// gzip and the injected error of a later read falls inside the
+				// compressed data, before anything could be decompressed
+				n = min(n, 10)
+			} else if c.Chunk && n > 1 && vrt.Choose(2, 1, "shortread") == 1 {
 				n = 1
 			}
 			o.delivered[i] += n
@@ -530,7 +536,11 @@ func check(c *Config, o *obs, res *vrt.Result) []finding {
 		} else if c.ErrSrc == i {
 			// the error replaced read number ErrAt; if the source had already hit EOF before, no error happened
 			if o.injected {
-				delivered[i] = s[:o.delivered[i]]
+				if c.Gunzip && i < len(c.Gz) && c.Gz[i] {
+					delivered[i] = "" // only the gzip header was delivered before the error
+				} else {
+					delivered[i] = s[:o.delivered[i]]
+				}
 				wantErrs = 1
 			}
 		}
@@ -843,6 +853,29 @@ func configs(prop, tier string) []*Config {
 					c.ErrSrc = -1
 					out = append(out, &c)
 				}
+			}
+		}
+		// -z with a gzip input that fails WHILE BEING READ (after its header),
+		// followed by two intact gzip inputs read by two readers: whatever the
+		// failing input leaves behind (a reader closed twice, a recycled
+		// decompressor) must not touch the later inputs
+		for _, readers := range []int{1, 2} {
+			for _, order := range [][]int{{0, 1, 2}, {1, 0, 2}} {
+				src := []string{shapes[2], shapes[8], shapes[9]}
+				c := Config{Path: "files", Gunzip: true, Matcher: "always", Extract: exFull, Batch: 1, Workers: 1, Readers: readers, Buffer: 1, Chunk: true}
+				for _, k := range order {
+					c.Sources = append(c.Sources, src[k])
+					c.Gz = append(c.Gz, true)
+				}
+				c.Bound = bound
+				c.ErrSrc, c.ErrAt = order[0], 1
+				// the failing input is the one holding shapes[2]: position of 0 in order
+				for pos, k := range order {
+					if k == 0 {
+						c.ErrSrc = pos
+					}
+				}
+				out = append(out, &c)
 			}
 		}
 		for _, s := range []int{2, 8, 6} {
